@@ -18,8 +18,9 @@ func (w *sinkWriter) Write(p []byte) (int, error) {
 // fragReader hands out the stream in arbitrary fragments: every call returns between 1 and
 // min(len(p), remaining) bytes, the count being a solver-chosen value.
 type fragReader struct {
-	data []byte
-	pos  int
+	data  []byte
+	pos   int
+	whole bool // hand out as much as fits in one call instead of a solver-chosen fragment
 }
 
 func (r *fragReader) Read(p []byte) (int, error) {
@@ -30,11 +31,14 @@ func (r *fragReader) Read(p []byte) (int, error) {
 	if len(p) == 0 {
 		return 0, nil
 	}
-	max := len(p)
-	if rem < max {
-		max = rem
+	if len(p) > rem {
+		p = p[:rem] // keeps the length concrete when the caller's buffer has a symbolic (hostile) size
 	}
-	n := 1 + v.Choose("frag", max)
+	max := len(p)
+	n := max
+	if !r.whole {
+		n = 1 + v.Choose("frag", max)
+	}
 	copy(p, r.data[r.pos:r.pos+n])
 	r.pos += n
 	return n, nil
@@ -75,4 +79,29 @@ func VH_C20_framing() {
 	var q3 types.Packet
 	v.Assert(rx.RecvMsg(&q3) == io.EOF, "end of stream after the last packet")
 	v.Cover("done")
+}
+
+// VH_C20_recv_arbitrary: RecvMsg on an arbitrary byte stream (4 symbolic length bytes followed by
+// K symbolic payload bytes): it returns a packet or an error and
+// never panics; when it accepts, the frame length fits the stream and the packet equals what the
+// codec decodes from exactly those payload bytes. (The size of the buffer it allocates for a
+// hostile length is not asserted.)
+func VH_C20_recv_arbitrary() {
+	k := v.Param("K", 2)
+	data := v.Bytes("stream", 4+k)
+	rx := NewProtoStream(context.Background(), &fragReader{data: data, whole: true}, nil)
+	var p types.Packet
+	err := rx.RecvMsg(&p)
+	v.Observe("ok", err == nil)
+	if err != nil {
+		v.Cover("rejected")
+		return
+	}
+	v.Cover("accepted")
+	length := int(data[0])<<24 | int(data[1])<<16 | int(data[2])<<8 | int(data[3])
+	v.Assert(length <= k, "an accepted frame is no longer than what the stream held")
+	var q types.Packet
+	v.Assert(q.UnmarshalVT(data[4:4+length]) == nil, "an accepted frame is a valid packet encoding")
+	v.Assert(q.Type == p.Type && q.ID == p.ID && string(q.Data) == string(p.Data), "the received packet is the decoding of exactly the framed bytes")
+	v.Assert(!v.Overlaps(p.Data, data), "the received packet does not alias the stream buffer")
 }
